@@ -302,12 +302,14 @@ def _group(s, i, u, first):
     return -1, False
 
 
-def longest_valid_prefix(s):
-    """max k such that s[:k] is a grammar-conforming path data string."""
+def longest_valid_prefix(s, continuation=False):
+    """max k such that s[:k] is a grammar-conforming path data string
+    (continuation=True: a sequence of commands appended to a path that already has a
+    current point, so the first command need not be a moveto)."""
     n = len(s)
     i = _ws(s, 0)
     good = i
-    first_cmd = True
+    first_cmd = not continuation
     while i < n:
         c = s[i]
         if c not in LETTERS:
